@@ -1485,7 +1485,9 @@ impl Scenario for C08 {
          simulated time passing (1 ms .. 1 day), spurious wake-ups, the listener failing or ending, and \
          reading 1..n bytes of output from a small output buffer. One random run in four has a second \
          connection on the same server (own Reset Query answered first, then silent; or stalled and \
-         never read), one in three an idle application-side NotifyReceiver, one in six a notify() \
+         never read; or - static source only - talking at the same time with a script of its own, \
+         both outputs to be explained by one attribution of the logged source calls), one script in \
+         sixteen pipelines 10-40 queries, one in three an idle application-side NotifyReceiver, one in six a notify() \
          before the connection task was first polled. The sweep walks version x cut \
          position 0..12 x query kind x extra yields x notify slot x (no time / 45 s pass after the cut) deterministically. After the schedule \
          all remaining bytes are delivered, output is drained and the run settles; then the output is \
